@@ -234,7 +234,10 @@ def x86_cases(f, mode, has_evex_sibling=True):
             out.append(mk(base, "kz", opt | X.OPT["z"], ("k", 1)))
     if name in ("vpternlogd", "vpternlogq") and base is not None and base[-1][0] == "i":
         # imm8 0x11 (the default) makes the result independent of the destination; 0xCA = A ? B : C depends on it
-        out.append(mk(list(base[:-1]) + [("i", 0xCA)], "imm=0xca", opt))
+        # every immediate: the destination is an input exactly when the truth table differs between A=0 and A=1
+        for imm in range(256):
+            if imm != base[-1][1]:
+                out.append(mk(list(base[:-1]) + [("i", imm)], "imm=0x%02x" % imm, opt))
     # register-id alphabet of the features clause: the VEX / EVEX decision depends on the HIGHEST vector register id.
     # Every vector operand position in turn gets id 16 (first EVEX-only id) and 31 while the others stay below 16 (EVEX
     # forms), and id 15 (last VEX id) with no option at all (VEX forms); a VSIB index register gets id 16 as well.
